@@ -65,6 +65,33 @@ fixed("C17", "unlisted:format_general-differs", "c150721", "format_general(0, ..
 fixed("C17", "unlisted:from_hex-rejects", "adf4382", "from_hex rejected surrounding whitespace that float.fromhex() ignores", "' 0x1p0 '")
 known("C17", "from_hex-rejects-values-needing-rounding", "from_hex only accepts texts whose exact value is a double (hexf-parse); float.fromhex() rounds texts with more than 53 significant bits or subnormal / underflowing results", "0x1.00000000000008p0")
 
+# ---------------------------------------------------------------- C18 (root causes; predicates in mon/checks/c18.py::classify)
+known("C18", "grouping-with-exponent-general-percent-panics", "a ',' or '_' grouping option together with type e/E/g/G/%/n (or a float without type) panics in get_separator_interval", "format(1.5, ',e')")
+known("C18", "grouping-applies-width-as-zero-padding", "with a grouping option the field width is filled with grouped zeros even when neither '0' nor '=' was requested (also for inf/nan)", "format(7, '12,d')")
+known("C18", "grouping-no-type-float-exponent-form", "grouping is inserted into exponent-form text of a float without presentation type ('1e_+15')", "format(1e15, '_')")
+known("C18", "grouping-zero-padding-width-accounting", "with grouping and '='/'0' alignment a non-zero fill is replaced by grouped zeros / width is accounted differently", "format(-255, '= 8_')")
+known("C18", "grouping-validation-differs", "specifications with a grouping option are accepted/rejected differently from Python", "format(1, ',b')")
+known("C18", "z-option-unknown", "the 3.11 'z' (negative-zero coercion) option is not recognised", "format(-0.0, 'z.1f')")
+known("C18", "string-spec-sign-alt-equals-align-not-rejected", "string formatting does not reject sign, space, '#', '=' alignment, '0' or grouping", "format('a', '+')")
+known("C18", "string-zero-flag-padding-differs", "'0' width flag on a string pads on the left (Python pads strings on the right with '0')", "format('a', '05')")
+known("C18", "bool-without-type-formatted-as-text-not-int", "a boolean with a non-empty specification without presentation type is rendered as 'True'/'False'; Python formats it as the integer 1/0 with all numeric options", "format(True, '5')")
+known("C18", "char-conversion-validation-and-padding", "type 'c' accepts a precision/sign/'#', pads by bytes and does not range-check like Python", "format(97, '.2c')")
+known("C18", "float-no-type-with-precision-or-alt", "a float without presentation type but with a precision or '#' takes a different branch ('1' instead of '1.0', '1e+16' instead of '1.e+16')", "format(1.0, '.2')")
+known("C18", "float-special-values-zero-pad-alt", "inf/nan with zero padding, '=' alignment, '#' or precision differ", "format(float('inf'), '08')")
+known("C18", "n-type-handling", "type 'n' differs (accept/reject or text)", "format(1.5, 'n')")
+known("C18", "int-precision-not-rejected", "a precision on an integer presentation type is not rejected", "format(1, '.2d')")
+known("C18", "leading-conversion-accepted-in-format-spec", "FormatSpec::parse accepts a leading '!x' conversion inside the specification text; Python's format() rejects it", "format(1, '!b')")
+known("C18", "int-with-float-type", "an integer formatted with a float presentation type differs", "format(10**30, 'e')")
+
+# ---------------------------------------------------------------- C19
+known("C19", "percent-b-accepted-in-text-template", "the specifier parser is shared between text and bytes templates, so '%b' is accepted in a text template (Python: unsupported format character 'b')", "'%b' % 1")
+fixed("C19", "unlisted:formatted-text-differs", "78455d7", "format_bytes ignored a bare '.' precision (b'%.s' % b'abc' gave b'abc' instead of b'')", "b'%.s' % b'abc'")
+
+# ---------------------------------------------------------------- C20
+known("C20", "index-bracket-not-scanned-as-opaque-unit", "inside a replacement field Python scans `[`...`]` as an opaque unit (so `!`, `:`, braces inside belong to the field name and a missing `]` is an error); this crate looks for `!` / `:` / braces first", "'{[}'")
+known("C20", "brace-inside-field-name-accepted", "a `{` inside a field name is accepted (Python: unexpected '{' in field name)", "'{]{}}'")
+known("C20", "conversion-character-brace-or-colon-handled-differently", "Python's template parser takes any single character after `!` as the conversion (also `{`, `}`, `:`); this crate rejects those", "'{!}}'")
+
 # further per-property tables are appended by findings_*.py fragments (one per check family)
 if __name__ == "__main__":
     import os
